@@ -1,7 +1,7 @@
 (** Entry points of the C08 models for the correspondence driver. *)
 From Coq Require Import String Ascii List NArith Bool.
 From Tongo Require Import Lib.Bits Lib.Res Lib.Sx Spec.Sha256 Spec.TlWire Model.BocParse
-     Model.Tl Model.TlTotal Model.TlbCore Model.TlbTotal Model.Framing Generated.TlBindings.
+     Model.Tl Model.TlTotal Model.TlbCore Model.TlbTotal Model.TlbHand Model.Framing Generated.TlBindings.
 Import ListNotations.
 Local Open Scope string_scope.
 Local Open Scope list_scope.
@@ -101,6 +101,87 @@ Fixpoint ty_of_sx (fuel : nat) (a : sx) : option ty :=
     end
   end.
 
+(** extended descriptors: everything above plus 'grams 'snake 'bytes 'ftext 'vmstack
+    'vmvalue 'vmtuple 'cslice 'fail ('hm n vsz v) ('hmaug n vsz v e) *)
+Fixpoint yty_of_sx (fuel : nat) (a : sx) : option yty :=
+  match fuel with
+  | O => None
+  | S f =>
+    let tys := fix go (l : list sx) : option (list yty) :=
+                 match l with
+                 | [] => Some []
+                 | x :: r => match yty_of_sx f x, go r with Some t, Some ts => Some (t :: ts) | _, _ => None end
+                 end in
+    let alts := fix go (l : list sx) : option (list (nat * N * yty)) :=
+                  match l with
+                  | [] => Some []
+                  | SL [SN len; SN val; x] :: r =>
+                      match yty_of_sx f x, go r with
+                      | Some t, Some ts => Some ((N.to_nat len, val, t) :: ts) | _, _ => None end
+                  | _ => None
+                  end in
+    match a with
+    | SA k =>
+        if String.eqb k "bool" then Some YBool else if String.eqb k "unary" then Some YUnary
+        else if String.eqb k "any" then Some YAny else if String.eqb k "cell" then Some YCellRef
+        else if String.eqb k "addr" then Some YAddr else if String.eqb k "grams" then Some YGrams
+        else if String.eqb k "snake" then Some YSnake else if String.eqb k "bytes" then Some YBytes
+        else if String.eqb k "ftext" then Some YFixedText else if String.eqb k "vmstack" then Some YVmStack
+        else if String.eqb k "vmvalue" then Some YVmValue else if String.eqb k "vmtuple" then Some YVmTuple
+        else if String.eqb k "cslice" then Some YCellSlice else if String.eqb k "fail" then Some YFail
+        else if String.eqb k "rawcell" then Some YRawCell
+        else if String.eqb k "text" then Some YText
+        else None
+    | SL (SA k :: rest) =>
+        match rest with
+        | [SN w] =>
+            let w := N.to_nat w in
+            if String.eqb k "u" then Some (YUint w) else if String.eqb k "i" then Some (YInt w)
+            else if String.eqb k "bu" then Some (YBigUint w) else if String.eqb k "bi" then Some (YBigInt w)
+            else if String.eqb k "bits" then Some (YBits w) else if String.eqb k "var" then Some (YVarUInt w)
+            else None
+        | _ =>
+          if String.eqb k "magic" then
+            match rest with [SN len; SN val] => Some (YMagic (N.to_nat len) val) | _ => None end
+          else if String.eqb k "struct" then option_map YStruct (tys rest)
+          else if String.eqb k "sum" then option_map YSum (alts rest)
+          else if String.eqb k "hm" then
+            match rest with
+            | [SN n; SN vsz; x] => option_map (YHashmap (N.to_nat n) vsz) (yty_of_sx f x)
+            | _ => None
+            end
+          else if String.eqb k "bintree" then
+            match rest with
+            | [SN vsz; x] => option_map (YBinTree vsz) (yty_of_sx f x)
+            | _ => None
+            end
+          else if String.eqb k "hmaug" then
+            match rest with
+            | [SN n; SN vsz; x; y] =>
+                match yty_of_sx f x, yty_of_sx f y with
+                | Some v, Some e => Some (YHashmapAug (N.to_nat n) vsz v e) | _, _ => None end
+            | _ => None
+            end
+          else match rest with
+               | [x] =>
+                   match yty_of_sx f x with
+                   | Some t =>
+                       if String.eqb k "maybe" then Some (YMaybe t) else if String.eqb k "eref" then Some (YEitherRef t)
+                       else if String.eqb k "ref" then Some (YRef t) else if String.eqb k "mref" then Some (YMaybeRef t)
+                       else None
+                   | None => None
+                   end
+               | [x; y] =>
+                   if String.eqb k "either" then
+                     match yty_of_sx f x, yty_of_sx f y with Some l, Some r => Some (YEither l r) | _, _ => None end
+                   else None
+               | _ => None
+               end
+        end
+    | _ => None
+    end
+  end.
+
 (* cell trees: (kind bits (refs...)) *)
 Fixpoint xtree_of_sx (fuel : nat) (a : sx) : option xtree :=
   match fuel with
@@ -122,16 +203,27 @@ Fixpoint xtree_of_sx (fuel : nat) (a : sx) : option xtree :=
 Definition run_tlb (a : sx) : sx :=
   match a with
   | SL [SB cmp; d; tr] =>
-      match ty_of_sx 64 d, xtree_of_sx 64 tr with
+      match yty_of_sx 64 d, xtree_of_sx 3000 tr with
       | Some t, Some c =>
-          match xunmarshal [] 64 t c with
-          | Ok (s, _) => if cmp then SL [SA "ok"; sx_nat (List.length (xb s)); sx_nat (List.length (xr s))] else SA "ok"
+          match fst (yunmarshal [] 64 t c) with
+          | Ok s => if cmp then SL [SA "ok"; sx_nat (List.length (yb s)); sx_nat (List.length (yr s))] else SA "ok"
           | Err e => if N.eqb e EFuel then SA "fuel" else SA "err"
           | Panic _ => SA "panic"
           end
       | _, _ => sx_err "tlb-shape"
       end
   | _ => sx_err "tlb"
+  end.
+
+(* c08.tlbcost: modelled steps and allocation (evidence only) *)
+Definition run_tlbcost (a : sx) : sx :=
+  match a with
+  | SL [SB _; d; tr] =>
+      match yty_of_sx 64 d, xtree_of_sx 3000 tr with
+      | Some t, Some c => let st := snd (yunmarshal [] 64 t c) in SL [SN (c_steps st); SN (c_alloc st)]
+      | _, _ => sx_err "tlb-shape"
+      end
+  | _ => sx_err "tlbcost"
   end.
 
 Definition out_unit (r : res unit) : sx :=
@@ -156,6 +248,19 @@ Definition run_answer (a : sx) : sx :=
       | Ok d => SL [SA "ok"; SBytes d] | Err _ => SA "err" | Panic _ => SA "panic"
       end
   | _ => sx_err "answer"
+  end.
+
+(* c08.answer2: payload -> (first second): the same answer delivered twice to a
+   client that registered the query once; the first delivery removes the id *)
+Definition cls {A} (r : res A) : sx :=
+  match r with Ok _ => SA "ok" | Err _ => SA "err" | Panic _ => SA "panic" end.
+Definition run_answer2 (a : sx) : sx :=
+  match a with
+  | SBytes p =>
+      (* without 36 bytes there is no id to register *)
+      let registered := negb (short 36 p) in
+      SL [cls (process_query_answer registered p); cls (process_query_answer false p)]
+  | _ => sx_err "answer2"
   end.
 
 (* c08.nonce: payload -> 'ok | 'err | 'panic *)
@@ -211,8 +316,10 @@ Definition run (name : string) (a : sx) : sx :=
   if is "c08.tl" then run_tl a
   else if is "c08.tlalloc" then run_tlalloc a
   else if is "c08.tlb" then run_tlb a
+  else if is "c08.tlbcost" then run_tlbcost a
   else if is "c08.declen" then run_declen a
   else if is "c08.answer" then run_answer a
+  else if is "c08.answer2" then run_answer2 a
   else if is "c08.nonce" then run_nonce a
   else if is "c08.packet" then run_packet a
   else if is "c08.vmstack" then run_vmstack a
